@@ -1,5 +1,7 @@
 // Unit C19 — loader::Elf: the memory image is exactly the PT_LOAD segments (file bytes, zero fill,
-// R/W/X), function entries / symbols / program entry are rebased uniformly by the base address.
+// R/W/X), function entries / symbols / program entry are rebased uniformly by the base address; loader::ElfLinker: the
+// relocation passes (i386, MIPS) over the whole content view of the linked memory and `impl Loader for ElfLinker`
+// (units/C19/link_spec.rs, linker.rs; file system / recursion of load_elf: bounded enumerator only).
 // Generated file = this template + the real text of the functions named in the `//@` holes.
 #![feature(allocator_api)]
 #![allow(unused_imports, unused_variables, dead_code, unused_mut, non_snake_case, unused_parens, unused_braces)]
@@ -10,6 +12,10 @@ use vstd::arithmetic::mul::*;
 use std::ops::*;
 use std::cmp::Ordering;
 
+// log::warn! (third-party crate `log`, used by lib/loader/elf/elf_linker.rs): logging has no effect on the program
+// state; the stand-in expands to nothing (its arguments are not evaluated - they are plain variable reads).
+macro_rules! warn { ($($t:tt)*) => { } }
+
 verus! {
 
 //@ include spec/bv.rs
@@ -19,6 +25,7 @@ verus! {
 //@ include prelude/strmap.rs
 //@ include prelude/goblin_elf.rs
 //@ include units/C19/std_local.rs
+//@ include units/C19/link_std.rs
 
 // derive(Debug) of falcon::Error re-supplied (needed by `Result::unwrap`'s trait bound only; the
 // formatter output is never inspected by verified code): opaque, no contract.
@@ -104,6 +111,22 @@ use std::ops::Bound::{Excluded, Unbounded};
 //@ include units/C16/backing.rs
 //@ mode full
 
+// derive(Clone) of backing::Memory / backing::Section re-supplied (the linker's `memory()` returns `self.memory.clone()`):
+// compiler-generated field-wise clone: same byte order; BTreeMap::clone keeps the keys, and Section's derived clone
+// keeps the bytes (Vec<u8>::clone) and the permissions (Copy).  ASSUMED, listed in the evidence.
+/// two section maps with the same keys and, per key, the same bytes and permissions
+pub open spec fn same_content(s0: SecMap, s1: SecMap) -> bool {
+    forall|k: u64| #![trigger s1.contains_key(k)] #![trigger s0.contains_key(k)]
+        s1.contains_key(k) == s0.contains_key(k)
+        && (s0.contains_key(k) ==> s1[k].data@ == s0[k].data@ && s1[k].permissions == s0[k].permissions)
+}
+impl Clone for Memory {
+    #[verifier::external_body]
+    fn clone(&self) -> (r: Memory)
+        ensures r.endian == self.endian, same_content(self.sections@, r.sections@),
+    { unimplemented!() }
+}
+
 proof fn vf_canary_backing() ensures false {}
 } // mod backing
 } // mod memory
@@ -114,16 +137,19 @@ use crate::*;
 use crate::goblin_elf as goblin;
 use crate::strmap::*;
 use crate::c19_std::*;
+use crate::c19_link_std::*;
+use vstd::arithmetic::power2::*;
+use std::path::{Path, PathBuf};
 // the `use` lines of lib/loader/mod.rs and lib/loader/elf/elf.rs that the code under contract needs
 use crate::architecture::*;
 use crate::memory;
 use crate::memory::backing::Memory;
-use crate::memory::backing::{write_map, bytes_of, vw, sections_wf};
+use crate::memory::backing::{write_map, bytes_of, vw, sections_wf, SecMap, covers, within32, w32_byte, endian_value, bytes_at, all_mapped, lemma_vw_some, lemma_vw_inv, lemma_vw_none, same_content, lemma_value_bound, lemma_value4};
 use crate::memory::MemoryPermissions;
 use crate::Error;
 use std::collections::BTreeMap;
 
-broadcast use axiom_into_string_str;
+broadcast use {axiom_into_string_str, axiom_string_key_obeys_cmp_spec};
 
 //@ include units/C19/loader_types.rs
 //@ include units/C19/order_spec.rs
@@ -132,6 +158,8 @@ broadcast use axiom_into_string_str;
 //@ include units/C19/symbols_spec.rs
 //@ include units/C19/elf.rs
 //@ include units/C19/clients.rs
+//@ include units/C19/link_spec.rs
+//@ include units/C19/linker.rs
 
 proof fn vf_canary_loader() ensures false {}
 } // mod loader
